@@ -1079,4 +1079,161 @@ theorem insertAt_wf (S : Schema) (sl ins : Slice) (pos : Nat) (frag : List Node)
   · simp at h
   · simp at h
 
+/-! ### the mark steps' rebuilt slice keeps the spines -/
+
+theorem addMarkNode_elem (S : Schema) (mrk : Mark) (p t : TypeId) (a : Attrs) (m : Marks) (kids : List Node) :
+    ∃ m', addMarkNode S mrk p (.elem t a m kids) = .elem t a m' (fromArray (addMarkKids S mrk t kids)) := by
+  unfold addMarkNode
+  simp only
+  split <;> exact ⟨_, rfl⟩
+
+theorem removeMarkNode_elem (S : Schema) (mrk : Mark) (t : TypeId) (a : Attrs) (m : Marks) (kids : List Node) :
+    ∃ m', removeMarkNode S mrk (.elem t a m kids) = .elem t a m' (fromArray (removeMarkKids S mrk kids)) := by
+  unfold removeMarkNode
+  simp only
+  split <;> exact ⟨_, rfl⟩
+
+theorem addMarkKids_spineL (S : Schema) (mrk : Mark) : ∀ (l : List Node) (p : TypeId),
+    spineL l ≤ spineL (fromArray (addMarkKids S mrk p l))
+  | [], _ => by simp [spineL]
+  | .text .. :: _, _ => by simp [spineL]
+  | .leaf .. :: _, _ => by simp [spineL]
+  | .elem t a m kids :: ns, p => by
+    obtain ⟨m', hm⟩ := addMarkNode_elem S mrk p t a m kids
+    rw [addMarkKids, hm]
+    obtain ⟨x, hx⟩ := fromArray_cons_elem t a m' (fromArray (addMarkKids S mrk t kids)) (addMarkKids S mrk p ns)
+    rw [hx]
+    have := addMarkKids_spineL S mrk kids t
+    simp only [spineL_elem_cons]; omega
+
+theorem addMarkKids_spineR (S : Schema) (mrk : Mark) : ∀ (l : List Node) (acc : List Node) (p : TypeId),
+    spineR l ≤ spineR (addNodes acc (addMarkKids S mrk p l))
+  | [], _, _ => by simp [spineR]
+  | [.text ..], _, _ => by simp [spineR]
+  | [.leaf ..], _, _ => by simp [spineR]
+  | [.elem t a m kids], acc, p => by
+    obtain ⟨m', hm⟩ := addMarkNode_elem S mrk p t a m kids
+    rw [addMarkKids, hm, addMarkKids]
+    simp only [addNodes, List.foldl_cons, List.foldl_nil, addNode_elem]
+    rw [spineR_concat]
+    have := addMarkKids_spineR S mrk kids [] t
+    simp only [spineR_elem_single, fromArray]; omega
+  | x :: n :: ns, acc, p => by
+    have e : spineR (x :: n :: ns) = spineR (n :: ns) := by
+      conv => lhs; unfold spineR
+      cases x <;> rfl
+    rw [e, addMarkKids]
+    simp only [addNodes, List.foldl_cons]
+    exact addMarkKids_spineR S mrk (n :: ns) _ p
+
+theorem removeMarkKids_spineL (S : Schema) (mrk : Mark) : ∀ (l : List Node),
+    spineL l ≤ spineL (fromArray (removeMarkKids S mrk l))
+  | [] => by simp [spineL]
+  | .text .. :: _ => by simp [spineL]
+  | .leaf .. :: _ => by simp [spineL]
+  | .elem t a m kids :: ns => by
+    obtain ⟨m', hm⟩ := removeMarkNode_elem S mrk t a m kids
+    rw [removeMarkKids, hm]
+    obtain ⟨x, hx⟩ := fromArray_cons_elem t a m' (fromArray (removeMarkKids S mrk kids)) (removeMarkKids S mrk ns)
+    rw [hx]
+    have := removeMarkKids_spineL S mrk kids
+    simp only [spineL_elem_cons]; omega
+
+theorem removeMarkKids_spineR (S : Schema) (mrk : Mark) : ∀ (l : List Node) (acc : List Node),
+    spineR l ≤ spineR (addNodes acc (removeMarkKids S mrk l))
+  | [], _ => by simp [spineR]
+  | [.text ..], _ => by simp [spineR]
+  | [.leaf ..], _ => by simp [spineR]
+  | [.elem t a m kids], acc => by
+    obtain ⟨m', hm⟩ := removeMarkNode_elem S mrk t a m kids
+    rw [removeMarkKids, hm, removeMarkKids]
+    simp only [addNodes, List.foldl_cons, List.foldl_nil, addNode_elem]
+    rw [spineR_concat]
+    have := removeMarkKids_spineR S mrk kids []
+    simp only [spineR_elem_single, fromArray]; omega
+  | x :: n :: ns, acc => by
+    have e : spineR (x :: n :: ns) = spineR (n :: ns) := by
+      conv => lhs; unfold spineR
+      cases x <;> rfl
+    rw [e, removeMarkKids]
+    simp only [addNodes, List.foldl_cons]
+    exact removeMarkKids_spineR S mrk (n :: ns) _
+
+theorem addMark_slice_wf (S : Schema) (mrk : Mark) (p : TypeId) (old : Slice) (h : old.wf = true) :
+    (Slice.mk (fromArray (addMarkKids S mrk p old.content)) old.openStart old.openEnd).wf = true := by
+  simp only [Slice.wf, Bool.and_eq_true, decide_eq_true_eq] at h ⊢
+  have h1 := addMarkKids_spineL S mrk old.content p
+  have h2 := addMarkKids_spineR S mrk old.content [] p
+  simp only [fromArray] at h1 ⊢
+  omega
+
+theorem removeMark_slice_wf (S : Schema) (mrk : Mark) (old : Slice) (h : old.wf = true) :
+    (Slice.mk (fromArray (removeMarkKids S mrk old.content)) old.openStart old.openEnd).wf = true := by
+  simp only [Slice.wf, Bool.and_eq_true, decide_eq_true_eq] at h ⊢
+  have h1 := removeMarkKids_spineL S mrk old.content
+  have h2 := removeMarkKids_spineR S mrk old.content []
+  simp only [fromArray] at h1 ⊢
+  omega
+
+/-! ### node-level steps -/
+
+theorem nodeAtKids_no_internal : ∀ (kids : List Node) (pos : Nat), nodeAtKids kids pos ≠ .error .internal
+  | [], pos => by
+    unfold nodeAtKids
+    split <;> simp
+  | n :: ns, pos => by
+    unfold nodeAtKids
+    split
+    · simp
+    · split
+      · exact nodeAtKids_no_internal ns _
+      · cases n with
+        | text s m => simp
+        | leaf ty a m => simp
+        | elem ty a m kids => exact nodeAtKids_no_internal kids _
+
+theorem computeAttrs_no_internal (decls : List AttrDecl) (given : Attrs) :
+    computeAttrs decls given ≠ .error .internal := by
+  unfold computeAttrs
+  induction decls with
+  | nil => simp
+  | cons d ds ih =>
+    simp only [List.foldr_cons]
+    intro h
+    split at h
+    · rename_i e he
+      simp at h; subst h
+      exact ih he
+    · split at h
+      · split at h
+        · simp at h
+        · split at h <;> simp at h
+      · split at h <;> simp at h
+
+/-- `recreate` fails with a ValueError only, and what it returns is a leaf for a leaf and an empty
+    element for an element — so the one-node slice `⟨[u], 0, if leaf then 0 else 1⟩` is well-formed -/
+theorem recreate_slice_wf (S : Schema) (n u : Node) (attrs : Attrs) (marks : Marks)
+    (h : S.recreate n attrs marks = .ok u) :
+    (Slice.mk [u] 0 (if n.isLeaf then 0 else 1)).wf = true := by
+  unfold Schema.recreate at h
+  cases n with
+  | text s m => simp at h
+  | leaf t a m =>
+    simp [Node.isLeaf, Slice.wf]
+  | elem t a m k =>
+    simp only at h
+    cases hc : computeAttrs (S.nodeType t).attrs attrs with
+    | error e => rw [hc] at h; simp [Except.map] at h
+    | ok a' =>
+      rw [hc] at h; simp [Except.map] at h; subst h
+      simp [Node.isLeaf, Slice.wf]
+
+theorem recreate_no_internal (S : Schema) (n : Node) (attrs : Attrs) (marks : Marks) :
+    S.recreate n attrs marks ≠ .error .internal := by
+  unfold Schema.recreate
+  cases n with
+  | text s m => simp
+  | leaf t a m => exact map_ne_internal (computeAttrs_no_internal _ _)
+  | elem t a m k => exact map_ne_internal (computeAttrs_no_internal _ _)
+
 end PM
